@@ -54,6 +54,13 @@ def xtarget(ctx, classes):
 def c01(ctx):
     ctx.mon("c01/asm-debug", "asm", "debug", ["c01"])
     ctx.mon("c01/asm-release", "asm", "release", ["c01"])
+    # the other two build flavours of the crate (different kernels behind the same dispatch, and in
+    # `pure` a different compile-time MAX_SIMD_DEGREE), with their natural platform detection
+    ctx.mon("c01/pure-debug", "pure", "debug", ["c01", "--scale", "0.3"])
+    ctx.mon("c01/intr-debug", "intr", "debug", ["c01", "--scale", "0.3"])
+    if ctx.thorough:
+        ctx.mon("c01/pure-release", "pure", "release", ["c01", "--scale", "0.3"])
+        ctx.mon("c01/intr-release", "intr", "release", ["c01", "--scale", "0.3"])
     if ctx.thorough:
         xtarget(ctx, ["hash"])
     if ctx.thorough:
@@ -63,6 +70,13 @@ def c01(ctx):
 def c02(ctx):
     ctx.mon("c02/asm-debug", "asm", "debug", ["c02"])
     ctx.mon("c02/asm-release", "asm", "release", ["c02"])
+    # the other two build flavours of the crate (different kernels behind the same dispatch, and in
+    # `pure` a different compile-time MAX_SIMD_DEGREE), with their natural platform detection
+    ctx.mon("c02/pure-debug", "pure", "debug", ["c02", "--scale", "0.3"])
+    ctx.mon("c02/intr-debug", "intr", "debug", ["c02", "--scale", "0.3"])
+    if ctx.thorough:
+        ctx.mon("c02/pure-release", "pure", "release", ["c02", "--scale", "0.3"])
+        ctx.mon("c02/intr-release", "intr", "release", ["c02", "--scale", "0.3"])
     if ctx.thorough:
         core.coverage_evidence(ctx, ['c02'], ['/repo/src/lib.rs', '/repo/src/io.rs', '/repo/src/join.rs'])
 
@@ -70,6 +84,13 @@ def c02(ctx):
 def c03(ctx):
     ctx.mon("c03/asm-debug", "asm", "debug", ["c03"])
     ctx.mon("c03/asm-release", "asm", "release", ["c03"])
+    # the other two build flavours of the crate (different kernels behind the same dispatch, and in
+    # `pure` a different compile-time MAX_SIMD_DEGREE), with their natural platform detection
+    ctx.mon("c03/pure-debug", "pure", "debug", ["c03", "--scale", "0.3"])
+    ctx.mon("c03/intr-debug", "intr", "debug", ["c03", "--scale", "0.3"])
+    if ctx.thorough:
+        ctx.mon("c03/pure-release", "pure", "release", ["c03", "--scale", "0.3"])
+        ctx.mon("c03/intr-release", "intr", "release", ["c03", "--scale", "0.3"])
     if ctx.thorough:
         core.coverage_evidence(ctx, ['c03'], ['/repo/src/lib.rs', '/repo/src/platform.rs'])
 
